@@ -352,32 +352,57 @@ def waistPosition (ext : Ext α) (w : Auto α) (c : Crystal α) (b : Beam α) : 
   | .param f => .ok (-(Transc.abs f) * micro)
   | .auto => ext.waistPos c b.wavelength b.pol
 
+/-- the crystal-angle step: "auto" asks for the optimum angle, which is refused with poling on -/
+def thetaStep (ext : Ext α) (cfg : Config α) (c0 : Crystal α) (signal pump : Beam α)
+    (pp : Poling α) : Outcome (Crystal α) :=
+  if cfg.crystal.thetaDeg.isAuto then
+    (if pp.isOff then (optimumTheta ext c0 signal pump).map fun th => { c0 with theta := th }
+     else .err "autotheta+pp")
+  else .ok c0
+
+/-- the idler step: explicit configuration, or the optimum idler -/
+def idlerStep (ext : Ext α) (cfg : Config α) (signal pump : Beam α) (c1 : Crystal α)
+    (pp : Poling α) : Outcome (Beam α) :=
+  match cfg.idler with
+  | .param ic => ic.tryAsBeam ext c1.pmType.idlerPol c1
+  | .auto => optimumIdler ext signal pump c1 pp
+
+/-- the idler's waist-position request: "auto" when the idler itself is "auto" -/
+def idlerWaistCfg (cfg : Config α) : Auto α :=
+  match cfg.idler with
+  | .param ic => ic.waistPositionUm
+  | .auto => .auto
+
 /-- `SPDCConfig::try_as_spdc`.  `guard = true` is the repaired code (early error for
 `λ_s ≤ λ_p`); `guard = false` is the pinned tree. -/
 def tryAsSpdcG (guard : Bool) (cfg : Config α) (ext : Ext α) : Outcome (Setup α) :=
-  let deff := cfg.deffPmPerVolt * pmPerVolt
-  let thr := cfg.pump.spectrumThreshold.getD 1.0e-2
   let c0 := cfg.crystal.toSetup
   let pump := cfg.pump.asBeam c0
   (cfg.signal.tryAsBeam ext c0.pmType.signalPol c0).bind fun signal =>
   if guard && lsLeLp signal pump then .err "ls<=lp" else
   (cfg.poling.tryAsPoling ext signal pump c0).bind fun pp =>
-  (if cfg.crystal.thetaDeg.isAuto then
-      (if pp.isOff then (optimumTheta ext c0 signal pump).map fun th => { c0 with theta := th }
-       else .err "autotheta+pp")
-    else .ok c0).bind fun c1 =>
-  (match cfg.idler with
-    | .param ic => ic.tryAsBeam ext c1.pmType.idlerPol c1
-    | .auto => optimumIdler ext signal pump c1 pp).bind fun idler =>
-  (waistPosition ext (match cfg.idler with
-      | .param ic => ic.waistPositionUm
-      | .auto => .auto) c1 idler).bind fun iwp =>
+  (thetaStep ext cfg c0 signal pump pp).bind fun c1 =>
+  (idlerStep ext cfg signal pump c1 pp).bind fun idler =>
+  (waistPosition ext (idlerWaistCfg cfg) c1 idler).bind fun iwp =>
   (waistPosition ext cfg.signal.waistPositionUm c1 signal).bind fun swp =>
   .ok { crystal := c1, signal := signal, idler := idler, pump := pump,
         pumpBandwidth := cfg.pump.bandwidthNm * nano,
         pumpAveragePower := cfg.pump.averagePowerMw * 1.0,
-        pumpSpectrumThreshold := thr, pp := pp, signalWaistPos := swp, idlerWaistPos := iwp,
-        deff := deff }
+        pumpSpectrumThreshold := cfg.pump.spectrumThreshold.getD 1.0e-2, pp := pp,
+        signalWaistPos := swp, idlerWaistPos := iwp,
+        deff := cfg.deffPmPerVolt * pmPerVolt }
+
+/-- `SPDCConfig::default()` (KTP is crystal 1 of the META table) -/
+def defaultConfig : Config α :=
+  { crystal := { kind := 1, pmType := .t2_e_eo, phiDeg := 0.0, thetaDeg := .auto, lengthUm := 2000.0,
+                 temperatureC := 20.0, counterProp := false }
+    pump := { wavelengthNm := 775.0, waistUm := 100.0, bandwidthNm := 5.53, averagePowerMw := 1.0,
+              spectrumThreshold := some 1.0e-2 }
+    signal := { wavelengthNm := 1550.0, phiDeg := 0.0, thetaDeg := some 0.0, thetaExternalDeg := none,
+                waistUm := 100.0, waistPositionUm := .auto }
+    idler := .auto
+    poling := .off
+    deffPmPerVolt := 1.0 }
 
 /-- the code as it stands after the `fix:` commit for D7 -/
 def tryAsSpdc (cfg : Config α) (ext : Ext α) : Outcome (Setup α) := tryAsSpdcG true cfg ext
